@@ -21,6 +21,8 @@ import (
 	"golang.org/x/tools/go/ssa/ssautil"
 )
 
+var repoRoot string
+
 type site struct {
 	ID   int    `json:"id"`
 	A    int    `json:"a"`
@@ -104,7 +106,9 @@ func (b *builder) pos(p token.Pos) string {
 	}
 	pp := b.fset.Position(p)
 	f := pp.Filename
-	if i := strings.Index(f, "/repo/"); i >= 0 {
+	if strings.HasPrefix(f, repoRoot+"/") {
+		f = f[len(repoRoot)+1:]
+	} else if i := strings.Index(f, "/repo/"); i >= 0 {
 		f = f[i+6:]
 	}
 	return fmt.Sprintf("%s:%d", f, pp.Line)
@@ -115,6 +119,8 @@ var variableTime = map[string]bool{
 	"strings.Compare": true, "strings.EqualFold": true, "strings.HasPrefix": true, "strings.HasSuffix": true, "strings.Contains": true, "strings.Index": true,
 	"slices.Equal": true, "slices.Compare": true, "reflect.DeepEqual": true, "strings.EqualFold ": true,
 }
+var searchPkgs = map[string]bool{"strings": true, "bytes": true, "slices": true, "sort": true, "regexp": true, "reflect": true, "maps": true, "unicode/utf8": false}
+
 var constantTime = map[string]bool{"crypto/subtle.ConstantTimeCompare": true, "crypto/hmac.Equal": true,
 	"crypto/subtle.ConstantTimeByteEq": true, "crypto/subtle.ConstantTimeEq": true}
 
@@ -312,6 +318,16 @@ func (b *builder) call(fn *ssa.Function, ins ssa.CallInstruction, c *ssa.CallCom
 	}
 	if variableTime[name] && len(args) >= 2 {
 		b.g.Compares = append(b.g.Compares, site{A: b.val(args[0]), B: b.val(args[1]), Kind: name, Pos: pos, Fn: fn.String()})
+	} else if f, ok := c.Value.(*ssa.Function); ok && f.Pkg != nil && searchPkgs[f.Pkg.Pkg.Path()] && len(args) >= 2 {
+		// any other function of the text-searching / comparing packages that is given BOTH values (Index, Count, Cut,
+		// Search, Match, Compare ...) inspects one against the other in data-dependent time
+		for i := 0; i < len(args); i++ {
+			for j := i + 1; j < len(args); j++ {
+				if !isConst(args[i]) && !isConst(args[j]) {
+					b.g.Compares = append(b.g.Compares, site{A: b.val(args[i]), B: b.val(args[j]), Kind: name, Pos: pos, Fn: fn.String()})
+				}
+			}
+		}
 	}
 	// HMAC output
 	if c.IsInvoke() && c.Method.Name() == "Sum" && strings.Contains(c.Value.Type().String(), "hash.Hash") {
@@ -391,6 +407,7 @@ func main() {
 	repo := flag.String("repo", "/repo", "repository root")
 	out := flag.String("out", "", "output JSON file")
 	flag.Parse()
+	repoRoot = strings.TrimRight(*repo, "/")
 	env := []string{}
 	for _, e := range os.Environ() {
 		if strings.HasPrefix(e, "GOFLAGS=") || strings.HasPrefix(e, "GOOS=") || strings.HasPrefix(e, "GOARCH=") || strings.HasPrefix(e, "GOSUMDB=") || strings.HasPrefix(e, "GOTOOLCHAIN=") {
